@@ -214,6 +214,23 @@ CLAIMED["C15"] = dict(
          "adjacency when the pattern bond carries a type/stereo/label (documented behaviour, outside the statement's notion).",
 )
 
+CLAIMED["C19"] = dict(
+    text="Python layer only, and split by level. Proved over the reals (z3, all inputs with spacing > 0, padding >= 0, hi >= lo): "
+         "rectangular_grid builds the full cartesian product of three axes, each with floor(extent/spacing)+1 >= 1 points, end points "
+         "included, step exactly the requested spacing, centred in and contained in the padded box (offset < spacing/2). Proved "
+         "structurally on every path (geometry / ensemble argument): nearest_atom_index and prune build the KD-tree over exactly the "
+         "structure's (conformer's / all conformers') coordinates, pass the caller's max_dist as search bound AND as threshold, eps as the "
+         "approximation factor, put -1 elsewhere, row i = conformer i; the nearest-within-cut-off meaning then follows from the ASSUMED "
+         "contract of scipy's KDTree.query. NOT proved -- bounded stand-in on the real extension under CPython, labelled bounded: the "
+         "compiled cdist22/cdist32 kernels (C++; shapes 0..5 x 0..5, 1..3 conformers, float32/float64, C-contiguous / Fortran / strided) "
+         "and aso / aeif / nearest_atom_index / prune / rectangular_grid against an independent float64 numpy reference on random inputs.",
+    ref="DESIGN.md section 3 C19, section 4",
+    category="proof",
+    note="The kernel clause of the statement is NOT decided deductively (no C++ verifier installed, no Python AST): only the bounded "
+         "differential stand-in covers it, and it also runs in the quick tier. Floats are reals in the grid proof; the float32 cast is "
+         "not modelled. aso/aeif array algebra is covered by the stand-in only (grids with >= 1 point).",
+)
+
 NOT_APPLICABLE = {
 }
 
